@@ -43,12 +43,16 @@ def construction_discipline(F, entries):
     return ok, bad
 
 
-def analyse_entry(F, d, adt, on_value=None, on_method=None, covered=()):
+def analyse_entry(F, d, adt, on_value=None, on_method=None, covered=(), entry_of=None):
     I = Interp(F)
     X = Explorer(F, I)
     X.covered_elsewhere = set(covered) - {adt}
     X.on_value, X.on_method = on_value, on_method
     outs = I.run(d, [input_slice()])
+    if entry_of:
+        # after the entry itself: calls into other (separately analysed) entry points are opaque
+        from ..analysis import opaque_parse_hook
+        I.call_hook = opaque_parse_hook(F, {k: v for k, v in entry_of.items() if v in X.covered_elsewhere})
     vr = validated_recurrence(I, d)
     if vr is not None:
         X.validated[adt] = vr
@@ -77,7 +81,7 @@ def run(ctx, res):
         res.ob(True, "construction-discipline", adt, "values of a parsed view are only constructed by its parser (struct literal sites enumerated crate-wide)")
     for d, adt, kind in entries:
         try:
-            I, X, outs, n_ok = analyse_entry(F, d, adt, covered=covered)
+            I, X, outs, n_ok = analyse_entry(F, d, adt, covered=covered, entry_of={e[0]: e[1] for e in entries if e[2] != 'inherent'})
         except Unmodelled as ex:
             res.unmodelled(d, str(ex))
             continue
